@@ -131,6 +131,9 @@ def request_pipeline(r, rng, tables, sig, thorough):
                 inner = None
             if inner is not None:
                 got = [kv.split("=", 1) for kv in inner.split("&")]
+                names = [k for k, _ in got]
+                if len(set(names)) != len(names):
+                    problems.append(("duplicate", "parameter names occur more than once in what was sent: %s" % sorted(set(k for k in names if names.count(k) > 1))))
                 if [k for k, _ in got] != [k for k, _ in params]:
                     problems.append(("order", "decrypted parameter names %s, the request holds %s" % ([k for k, _ in got], [k for k, _ in params])))
                 else:
@@ -318,6 +321,25 @@ def run():
             if got != hm(k_, s_, c_, ph):
                 r.violation("token:environment:%s" % label, "%s environment (use #%d in this process, after %s): getToken(%r) = %r, its own constants give %r" % (
                     label, oi + 1, [o[0] for o in order[:oi]], ph, got, hm(k_, s_, c_, ph)), {"phone": ph, "env": label})
+    # ---- the CURRENT environment (what the request classes use) follows setEnv: derived -> stock -> derived
+    from yowsup.env import YowsupEnv
+    RegDerived = type("VerifRegisteredYowsupEnv", (AndroidYowsupEnv,), {"_KEY": own_key, "_MD5_CLASSES": own_cls, "_SIGNATURE": own_sig})
+    YowsupEnv.registerEnv(RegDerived)
+    try:
+        for oi, (name, k_, s_, c_) in enumerate((("verifregistered", own_key, own_sig, own_cls), ("android", stock_key, stock_sig, stock_cls), ("verifregistered", own_key, own_sig, own_cls),
+                                               ("android", stock_key, stock_sig, stock_cls))):
+            YowsupEnv.setEnv(name)
+            for ph in phones[:4]:
+                r.case(("token-current-env", name, oi, ph))
+                try:
+                    got = YowsupEnv.getCurrent().getToken(ph)
+                except Exception as e:
+                    got = repr(e)
+                if got != hm(k_, s_, c_, ph):
+                    r.violation("token:current-environment:%s" % name, "after setEnv(%r) (switch #%d) the current environment's getToken(%r) = %r, that environment's constants give %r" % (
+                        name, oi + 1, ph, got, hm(k_, s_, c_, ph)), {"phone": ph, "env": name})
+    finally:
+        YowsupEnv.setEnv("android")
     request_pipeline(r, rng, tables, sig, thorough)
     # ---- self-test: a trace with a repeated ephemeral key must be rejected by the specification
     bad = [[1, 2, 3, 2, 4]] + traces[:1]
